@@ -1,6 +1,6 @@
 #!/usr/bin/env python3
 """Regenerates the cost table of DESIGN.md from a quick-sweep log and a thorough-sweep log.
-usage: fill_cost.py <quick.log> <quick seed> <thorough.log> <thorough seed> <note>"""
+usage: fill_cost.py <quick.log> <quick seed> <thorough.log> <thorough seed|any> <note>   (seed "any": last line per check)"""
 import re, sys
 sys.path.insert(0, "/verif/tools")
 import driver
@@ -8,7 +8,7 @@ ql, qs, tl, ts, note = sys.argv[1], sys.argv[2], sys.argv[3], sys.argv[4], sys.a
 def parse(path, tier, seed):
     out = {}
     for l in open(path, errors="replace"):
-        m = re.search(r"(C\d\d) %s seed=%s: evaluations=(\d+) distinct_nontrivial=(\d+).*wall=([\d.]+)s" % (tier, seed), l)
+        m = re.search(r"(C\d\d) %s seed=%s: evaluations=(\d+) distinct_nontrivial=(\d+).*wall=([\d.]+)s" % (tier, r"\d+" if seed == "any" else seed), l)
         if m:
             out[m.group(1)] = (int(m.group(2)), int(m.group(3)), float(m.group(4)))
     return out
@@ -19,13 +19,16 @@ def cfgs(spec, tier):
         for c in spec.get(key, {}).get(tier, []):
             name = c[0] + ("+" + c[2] if len(c) > 2 else "") if isinstance(c, tuple) else c
             out.append(("in:" if key == "inside_configs" else "") + name)
+    cc = spec.get("count_configs", {}).get(tier, [])
+    if cc:
+        out.append("cnt:%s..%s" % (cc[0], cc[-1]))
     return " ".join(out)
 rows = ["| check | engine | quick: configurations | quick: evaluations / distinct | quick wall | thorough: configurations | thorough: evaluations / distinct | thorough wall |", "|---|---|---|---|---|---|---|---|"]
 for p in sorted(driver.SPECS):
     sp = driver.SPECS[p]
     qq, tt = q.get(p, (0, 0, 0)), t.get(p, (0, 0, 0))
     rows.append("| %s | %s | %s | %s / %s | %.0f s | %s | %s / %s | %.0f s |" % (p, sp["engine"], cfgs(sp, "quick"), f"{qq[0]:,}", f"{qq[1]:,}", qq[2], cfgs(sp, "thorough"), f"{tt[0]:,}", f"{tt[1]:,}", tt[2]))
-table = "\n".join(rows) + "\n\nAll 20 quick checks: %.0f s; all 20 thorough checks: %.0f min. %s\n`in:` marks the configurations of the inside (monitored-build) part of C04/C09; `+race` / `+asan` mark sanitizer builds of the same workload.\n" % (sum(v[2] for v in q.values()), sum(v[2] for v in t.values()) / 60, note)
+table = "\n".join(rows) + "\n\nAll 20 quick checks: %.0f s; all 20 thorough checks: %.0f min. %s\n`in:` marks the configurations of the inside (monitored-build) part of C04/C09; `cnt:` those of the block-count monitor of C20; `+race` / `+asan` mark sanitizer builds of the same workload.\n" % (sum(v[2] for v in q.values()), sum(v[2] for v in t.values()) / 60, note)
 s = open("/verif/DESIGN.md").read()
 s = re.sub(r"<!-- COST-BEGIN -->.*?<!-- COST-END -->", lambda _: "<!-- COST-BEGIN -->\n" + table + "<!-- COST-END -->", s, flags=re.S)
 open("/verif/DESIGN.md", "w").write(s)
